@@ -89,3 +89,31 @@ func FuzzC03(f *testing.F) {
 		}
 	}))
 }
+
+// FuzzC10: coverage-guided differential fuzzing of massive vs simple mode on raw documents (each fuzz worker owns a
+// chrooted worker process; the operation is chosen by the first byte).
+func FuzzC10(f *testing.F) {
+	for _, d := range c12Constants {
+		if len(d) > 5000 {
+			continue
+		}
+		for op := 0; op < 5; op++ {
+			f.Add(append([]byte{byte(op)}, d...))
+		}
+	}
+	col := coll("C10", "fuzz")
+	col.Rule = "native go fuzzing: byte 0 selects the operation (text, json, yaml, dryrun, walk), the rest is the document; massive vs simple differential"
+	f.Fuzz(func(t *testing.T, data []byte) {
+		if len(data) < 1 {
+			return
+		}
+		c := c10Case{Op: []string{"text", "json", "yaml", "dryrun", "walk"}[int(data[0])%5], Doc: data[1:], Origin: "fuzz"}
+		if k := c10Excluded(c); k != "" {
+			return
+		}
+		col.eval(true, hash64(string(data)), "fuzz:"+c.Op)
+		if msg := c10Check(c); msg != "" {
+			violation(t, "C10", "c10", c, msg)
+		}
+	})
+}
